@@ -195,6 +195,7 @@ class Evaluator:
     def __init__(self, ctx, mod, cls=None, imt_func=True):
         self.ctx, self.mod, self.cls = ctx, mod, cls
         self.folder = ctx.folder
+        self.cls_state = {}          # class attributes stored during the evaluation: (class qname, attribute) -> value; shared with sub-evaluators
 
     def ev(self, n, env):
         if isinstance(n, ast.Constant):
@@ -212,7 +213,7 @@ class Evaluator:
                     v_ = v_.func
                 if type(v_).__name__ == 'Func' and hasattr(v_, 'node') and isinstance(v_.node, ast.FunctionDef):
                     sub = Evaluator(self.ctx, v_.mod, None)
-                    for k in ('effects', 'on_yield'):
+                    for k in ('effects', 'on_yield', 'cls_state'):
                         if hasattr(self, k):
                             setattr(sub, k, getattr(self, k))
                     return MiniFunc(sub, v_.node, {}, v_.short)
@@ -222,7 +223,7 @@ class Evaluator:
                 fn_ = getattr(self.mod, 'funcs', {}).get(n.id)
                 if fn_ is not None:
                     sub = Evaluator(self.ctx, fn_.mod, None)
-                    for k in ('effects', 'on_yield'):
+                    for k in ('effects', 'on_yield', 'cls_state'):
                         if hasattr(self, k):
                             setattr(sub, k, getattr(self, k))
                     return MiniFunc(sub, fn_.node, {}, fn_.short)
@@ -267,6 +268,9 @@ class Evaluator:
             if base is UNKNOWN:
                 raise Unknown(src(n))
             if isinstance(base, Obj) and not hasattr(base, n.attr) and getattr(base, '_cls', None) is not None:
+                for c_ in self.ctx.repo.mro(base._cls):
+                    if (c_.qname, n.attr) in self.cls_state:
+                        return self.cls_state[(c_.qname, n.attr)]
                 node, owner = self.ctx.repo.lookup_class_attr(base._cls, n.attr)
                 if node is not None:
                     try:
@@ -285,6 +289,16 @@ class Evaluator:
                     return m_
             if isinstance(base, ClsRef) and n.attr == '__name__':
                 return base.cls.name
+            if isinstance(base, ClsRef):
+                for c_ in self.ctx.repo.mro(base.cls):
+                    if (c_.qname, n.attr) in self.cls_state:
+                        return self.cls_state[(c_.qname, n.attr)]
+                node, owner = self.ctx.repo.lookup_class_attr(base.cls, n.attr)
+                if node is not None:
+                    try:
+                        return self.folder.eval(node, owner.mod, None, owner)
+                    except NotConst:
+                        raise Unsupported(f'class attribute {n.attr}')
             if isinstance(base, (AbsToken, Obj)):
                 if not hasattr(base, n.attr):
                     raise Unsupported(f'attribute {n.attr} of abstract object')
@@ -501,7 +515,7 @@ class Evaluator:
         if m is None:
             return None
         sub = Evaluator(self.ctx, m.mod, m.cls)
-        for k in ('effects', 'on_yield'):
+        for k in ('effects', 'on_yield', 'cls_state'):
             if hasattr(self, k):
                 setattr(sub, k, getattr(self, k))
         sub._depth = getattr(self, '_depth', 0)
@@ -510,6 +524,8 @@ class Evaluator:
             return fn
         if any(isinstance(d, ast.Name) and d.id == 'property' for d in m.node.decorator_list):
             return ('property-value', fn(obj))
+        if any(isinstance(d, ast.Name) and d.id == 'classmethod' for d in m.node.decorator_list):
+            return lambda *a, **k: fn(ClsRef(obj._cls), *a, **k)
         return lambda *a, **k: fn(obj, *a, **k)
 
     def _method_of(self, tok, name):
@@ -520,7 +536,7 @@ class Evaluator:
         if m is None:
             return None
         sub = Evaluator(self.ctx, m.mod, m.cls)
-        for k in ('effects', 'on_yield'):
+        for k in ('effects', 'on_yield', 'cls_state'):
             if hasattr(self, k):
                 setattr(sub, k, getattr(self, k))
         sub._depth = getattr(self, '_depth', 0)
@@ -769,13 +785,13 @@ class Evaluator:
                 # a regex constant of the source applied to a known string
                 import re as _re
                 args = [self.ev(a, env) for a in n.args]
-                if len(args) != 1 or n.keywords:
+                if not 1 <= len(args) <= 3 or n.keywords:
                     raise Unsupported(f'regex call {src(n)[:40]}')
                 if args[0] is UNKNOWN:
                     raise Unknown('text of the token')
-                if not isinstance(args[0], str):
+                if not isinstance(args[0], str) or not all(type(x) is int for x in args[1:]):
                     raise Unsupported('regex subject')
-                return getattr(_re.compile(base.pattern, base.flags), f.attr)(args[0])
+                return getattr(_re.compile(base.pattern, base.flags), f.attr)(*args)
             if isinstance(base, Obj):
                 args = [self.ev(a, env) for a in n.args]
                 if callable(getattr(base, f.attr, None)):
@@ -785,7 +801,7 @@ class Evaluator:
                 if m is None:
                     raise Unsupported(f'method {src(f)}')
                 sub = Evaluator(self.ctx, m.mod, m.cls)
-                for k in ('effects', 'on_yield'):
+                for k in ('effects', 'on_yield', 'cls_state'):
                     if hasattr(self, k):
                         setattr(sub, k, getattr(self, k))
                 sub._depth = getattr(self, '_depth', 0)
@@ -800,11 +816,13 @@ class Evaluator:
                 if m is None:
                     raise Unsupported(f'method {src(f)}')
                 sub = Evaluator(self.ctx, m.mod, m.cls)
-                for k in ('effects', 'on_yield'):
+                for k in ('effects', 'on_yield', 'cls_state'):
                     if hasattr(self, k):
                         setattr(sub, k, getattr(self, k))
                 sub._depth = getattr(self, '_depth', 0)
                 a2, kw = self._args(n, env)
+                if any(isinstance(d, ast.Name) and d.id == 'classmethod' for d in m.node.decorator_list):
+                    a2 = [base] + list(a2)
                 return MiniFunc(sub, m.node, {}, m.short)(*a2, **kw)
             if type(base).__name__ == 'Match' and f.attr in ('group', 'groups', 'start', 'end', 'span'):
                 return _native(getattr(base, f.attr), *[self.ev(a, env) for a in n.args])
@@ -870,10 +888,10 @@ def run_function(ev, fnode, env, max_steps=200):
                     block(s.body, env)
                 else:
                     block(s.orelse, env)
-            elif isinstance(s, ast.Assign) and len(s.targets) == 1:
-                t = s.targets[0]
+            elif isinstance(s, ast.Assign):
                 v = ev.ev(s.value, env)
-                assign(t, v, env)
+                for t in s.targets:
+                    assign(t, v, env)
             elif isinstance(s, ast.AugAssign):
                 cur = ev.ev(ast.Attribute(value=s.target.value, attr=s.target.attr, ctx=ast.Load()) if isinstance(s.target, ast.Attribute)
                             else ast.Subscript(value=s.target.value, slice=s.target.slice, ctx=ast.Load()) if isinstance(s.target, ast.Subscript)
@@ -1031,6 +1049,8 @@ def run_function(ev, fnode, env, max_steps=200):
                 setattr(base, t.attr, v)
             elif isinstance(base, AbsToken) and t.attr in ('value', 'parent', 'ttype', 'normalized', 'tokens') and getattr(ev, 'effects', False):
                 setattr(base, t.attr, v)
+            elif isinstance(base, ClsRef) and getattr(ev, 'effects', False):
+                ev.cls_state[(base.cls.qname, t.attr)] = v
             else:
                 raise Unsupported('attribute store')
         elif isinstance(t, ast.Tuple):
